@@ -44,8 +44,9 @@ def specFloor (n : Int) (r : String) : Option String :=
       else none
 
 def handle (s : S) : List String → S × String
-  | ["conc", g, gets, double] =>
-    (s, if double == "0" then s!"ok {g} goroutines {gets} gets" else s!"specviol a buffer was handed to a second holder while the first still held it ({double} times in {gets} concurrent Gets)")
+  | ["conc", g, gets, double, short] =>
+    (s, if short != "0" then s!"specviol a concurrent Get returned a buffer smaller than requested ({short} times in {gets} Gets of mixed size classes)" else
+        if double == "0" then s!"ok {g} goroutines {gets} gets" else s!"specviol a buffer was handed to a second holder while the first still held it ({double} times in {gets} concurrent Gets)")
   | ["pmath", "ceil", n, r] =>
     match i64 n, n.toInt? with
     | some v, some ni =>
